@@ -3,6 +3,7 @@
 package table
 
 import (
+	"reflect"
 	"sort"
 
 	"github.com/named-data/ndnd/dv/tlv"
@@ -280,4 +281,21 @@ func (fib *Fib) VerifMarks() []uint64 {
 	}
 	sort.Slice(out, func(i, j int) bool { return out[i] < out[j] })
 	return out
+}
+
+// VerifFieldSignature lists every field of the table structs. The harness compares it with the
+// list its save/restore hooks were written for: a field they do not know (say, a cache added to
+// Rib) cannot be saved or restored, so the harness then computes every state by plain re-execution.
+func VerifFieldSignature() string {
+	var b []byte
+	for _, t := range []reflect.Type{reflect.TypeOf(Rib{}), reflect.TypeOf(RibEntry{}), reflect.TypeOf(NeighborTable{}), reflect.TypeOf(NeighborState{}),
+		reflect.TypeOf(Fib{}), reflect.TypeOf(FibEntry{}), reflect.TypeOf(PrefixTable{}), reflect.TypeOf(PrefixTableRouter{}), reflect.TypeOf(PrefixEntry{})} {
+		b = append(b, t.Name()...)
+		b = append(b, '{')
+		for i := 0; i < t.NumField(); i++ {
+			b = append(b, t.Field(i).Name+":"+t.Field(i).Type.String()+";"...)
+		}
+		b = append(b, '}')
+	}
+	return string(b)
 }
